@@ -92,7 +92,7 @@ def _episode(rng, world, layer_sets, n_rules=None, laws=True, render="ident"):
                 items.append({"op": "leval", "a": 0, "rid": rid + "s", "rule": r2,
                               "layers": list(reversed(alt)) if rng.random() < 0.5 else alt})
                 items.append({"op": "law", "law": "same", "as": [0, 0], "rids": [rid, rid + "s"]})
-    return {"driver": "layers", "world": w.json(), "render": render, "items": items}
+    return {"driver": "layers", "world": w.json(), "render": render, "items": items, "grow": rng.random() < 0.3}
 
 
 def _intra_episode(rng, w, layers):
